@@ -153,6 +153,8 @@ func init() {
 				starttls25      bool
 				implicit        bool
 				mandatory       bool
+				customPort      bool                  // a plain-text server on a port of its own; WithPort(that port) comes first
+				later           func(c *mail.Client) // setters called after NewClient
 			}
 			tlsCfg := &tls.Config{ServerName: "localhost", RootCAs: tlsRoots, MinVersion: tls.VersionTLS12}
 			scens := []scen{
@@ -164,6 +166,13 @@ func init() {
 				{name: "mandatory STARTTLS port policy, 587 closed, plain server on 25", opts: []mail.Option{mail.WithTLSPortPolicy(mail.TLSMandatory)}, mandatory: true},
 				{name: "mandatory STARTTLS port policy, 587 open", opts: []mail.Option{mail.WithTLSPortPolicy(mail.TLSMandatory)}, mandatory: true, open587: true},
 				{name: "opportunistic port policy, 587 closed, plain server on 25", opts: []mail.Option{mail.WithTLSPortPolicy(mail.TLSOpportunistic)}},
+				// implicit TLS asked for on a port of the caller's choosing: the port stays, the TLS must too
+				{name: "custom port, then WithSSLPort(false), plain server there", opts: []mail.Option{mail.WithSSLPort(false)}, implicit: true, customPort: true},
+				{name: "custom port, then WithSSLPort(true), plain server there", opts: []mail.Option{mail.WithSSLPort(true)}, implicit: true, customPort: true},
+				{name: "custom port, then WithSSL, plain server there", opts: []mail.Option{mail.WithSSL()}, implicit: true, customPort: true},
+				{name: "custom port, later SetSSLPort(true, false), plain server there", implicit: true, customPort: true, later: func(c *mail.Client) { c.SetSSLPort(true, false) }},
+				{name: "custom port, later SetSSL(true), plain server there", implicit: true, customPort: true, later: func(c *mail.Client) { c.SetSSL(true) }},
+				{name: "custom port, mandatory STARTTLS policy, plain server there", opts: []mail.Option{mail.WithTLSPolicy(mail.TLSMandatory)}, mandatory: true, customPort: true},
 			}
 			for _, sc := range scens {
 				var servers []*tcpSMTP
@@ -192,11 +201,22 @@ func init() {
 					c.rep.Branches["skipped: ports not available"]++
 					continue
 				}
-				opts := append([]mail.Option{mail.WithTLSConfig(tlsCfg), mail.WithTimeout(3 * time.Second)}, sc.opts...)
+				opts := []mail.Option{mail.WithTLSConfig(tlsCfg), mail.WithTimeout(3 * time.Second)}
+				if sc.customPort {
+					own := start("127.0.0.1:0", false, false)
+					if own == nil {
+						continue
+					}
+					opts = append(opts, mail.WithPort(own.ln.Addr().(*net.TCPAddr).Port))
+				}
+				opts = append(opts, sc.opts...)
 				client, err := mail.NewClient("127.0.0.1", opts...)
 				if err != nil {
 					c.Note("config: %v", err)
 					continue
+				}
+				if sc.later != nil {
+					sc.later(client)
 				}
 				m := mail.NewMsg()
 				_ = m.From("sender@example.com")
@@ -243,6 +263,87 @@ func init() {
 						c.Violate("c07-cleartext-command", "the send succeeded but no MAIL command was seen inside TLS", desc)
 					}
 				}
+			}
+		}})
+}
+
+// c13-default-dialer: concurrent DialAndSend on ONE Client that has no dial function of its own - the library's
+// net.Dialer / tls.Dialer path - against a real TCP listener. Under the race detector (the C13 check builds with
+// -race) any unsynchronised write to the Client during a dial shows up; the oracle checks the deliveries.
+func init() {
+	register(Suite{Name: "c13-default-dialer", Property: "C13",
+		Rule: "8 .. 24 goroutines call DialAndSend with distinct messages on one Client WITHOUT a custom dial function (the library's own dialer), against a real TCP listener on 127.0.0.1 with an ephemeral port; several rounds per Client, clear text and implicit TLS; every call must succeed and every message must arrive exactly once, complete (its marker line inside its own DATA section); the binary is built with the race detector: every unsynchronised access to the Client during a dial is reported as a schedule on which the property fails; oracle only",
+		Run: func(c *Ctx) {
+			tlsMaterial()
+			rounds := c.N(6, 60)
+			for round := 0; round < rounds; round++ {
+				implicit := round%3 == 2
+				srv, err := startTCPSMTP("127.0.0.1:0", implicit, false)
+				if err != nil {
+					c.Note("cannot listen on 127.0.0.1: %v", err)
+					return
+				}
+				port := srv.ln.Addr().(*net.TCPAddr).Port
+				opts := []mail.Option{mail.WithPort(port), mail.WithTimeout(5 * time.Second), mail.WithTLSPolicy(mail.NoTLS)}
+				if implicit {
+					opts = append(opts, mail.WithSSL(), mail.WithTLSConfig(&tls.Config{ServerName: "localhost", RootCAs: tlsRoots, MinVersion: tls.VersionTLS12}))
+				}
+				client, err := mail.NewClient("127.0.0.1", opts...)
+				if err != nil {
+					c.Note("config: %v", err)
+					srv.stop()
+					continue
+				}
+				workers := 8 + 4*(round%5)
+				errs := make([]error, workers)
+				var wg sync.WaitGroup
+				for w := 0; w < workers; w++ {
+					wg.Add(1)
+					go func(w int) {
+						defer wg.Done()
+						m := mail.NewMsg()
+						_ = m.From(fmt.Sprintf("sender%d@example.com", w))
+						_ = m.To(fmt.Sprintf("rcpt%d@example.com", w))
+						m.Subject(fmt.Sprintf("round %d worker %d", round, w))
+						m.SetBodyString(mail.TypeTextPlain, fmt.Sprintf("marker-r%d-w%d-end", round, w))
+						errs[w] = client.DialAndSendWithContext(context.Background(), m)
+					}(w)
+				}
+				done := make(chan struct{})
+				go func() { wg.Wait(); close(done) }()
+				desc := map[string]interface{}{"round": round, "goroutines": workers, "implicit_tls": implicit}
+				select {
+				case <-done:
+				case <-time.After(60 * time.Second):
+					c.Violate("c13-deadlock", "concurrent DialAndSend calls did not return within 60 s", desc)
+					srv.stop()
+					continue
+				}
+				time.Sleep(30 * time.Millisecond)
+				c.rep.OracleChecked++
+				c.Count(true, fmt.Sprint(round), fmt.Sprintf("goroutines=%d:implicit=%v", workers, implicit))
+				clear, inTLS, _ := srv.snapshot()
+				lines := clear
+				if implicit {
+					lines = inTLS
+					if len(clear) > 0 {
+						c.Violate("c07-cleartext-command", fmt.Sprintf("implicit TLS, but %q arrived in clear", clear[0]), desc)
+					}
+				}
+				all := strings.Join(lines, "\n")
+				for w := 0; w < workers; w++ {
+					if errs[w] != nil {
+						c.Violate("c13-send-error", fmt.Sprintf("DialAndSend of worker %d failed: %v", w, errs[w]), desc)
+						continue
+					}
+					if n := strings.Count(all, fmt.Sprintf("marker-r%d-w%d-end", round, w)); n != 1 {
+						c.Violate("c13-not-exactly-once", fmt.Sprintf("the message of worker %d arrived %d times", w, n), desc)
+					}
+					if n := strings.Count(all, fmt.Sprintf("MAIL FROM:<sender%d@example.com>", w)); n != 1 {
+						c.Violate("c13-not-exactly-once", fmt.Sprintf("the envelope of worker %d was seen %d times", w, n), desc)
+					}
+				}
+				srv.stop()
 			}
 		}})
 }
